@@ -20,7 +20,8 @@ def to_smt2(assumptions, goal):
     for a in assumptions:
         s.add(a)
     s.add(z3.Not(goal))
-    return s.to_smt2()
+    # region names carry '|', which z3 prints escaped inside |quoted| symbols; cvc5 rejects that
+    return s.to_smt2().replace('\\|', '!')
 
 
 _QF_IDS = set()
